@@ -1,6 +1,6 @@
 from algo_prop import make
 ALGOS = ["T_HOO", "HCT", "VHCT", "SOO", "DOO", "StoSOO", "SequOOL", "StroquOOL", "VROOM", "Zooming", "POO", "GPO"]
-LEAN_EXTRA = ["PyXABProofs.Props.C08", "PyXABProofs.Props.C11", "PyXABProofs.Props.C12", "PyXABProofs.Props.C13", "PyXABProofs.Props.StroquOOL"]
+LEAN_EXTRA = ["PyXABProofs.Generated.FormulasC04", "PyXABProofs.Props.C08", "PyXABProofs.Props.C11", "PyXABProofs.Props.C12", "PyXABProofs.Props.C13", "PyXABProofs.Props.StroquOOL"]
 budget, explore, search, replay = make("C04", ALGOS, quick_per_algo=6, thorough_per_algo=80, salt=400)
 RULE = ("the documented pull/receive loop on the real classes: algorithm x partition class (K 2..5) x dimension 1..3 x box shape x "
         "parameters from the documented ranges x ten reward modes (dyadic noise, all-negative, zero, constant, few-valued ties, "
@@ -13,3 +13,9 @@ ASSUMPTIONS = ["theorems are about the Lean models HOO/HCT(VHCT); they are tied 
                "np.sum/np.var are re-implemented in Lean; c1 is read from the object and cross-checked to 1e-9)",
                "score theorems hold for every linear order of scores and every formula record; IEEE rounding is not modelled"]
 TRUSTED = ["harness/algo_cases.py, harness/monitors.py, harness/common.py (instrumented partition subclasses, RNG patching)", "lean/PyXABModel/Drv (driver)"]
+
+
+def regenerate(tier):
+    """translator tie: VHCT's variance floor max(np.var, 1e-3) traced from update_reward and re-proved each run"""
+    import translate_formulas
+    return translate_formulas.generate("C04")
